@@ -85,6 +85,8 @@ structure Unperturbed (A : Type*) [Ring A] [StarRing A] [Algebra ℚ A] [StarMod
   /-- the solver solves `H0 V - V H0 = z` on upper blocks and on eliminated diagonal elements -/
   Sy_up : ∀ z : A, P up (H0 * Sy z - Sy z * H0) = P up z
   Sy_ed : ∀ z : A, P ed (H0 * Sy z - Sy z * H0) = P ed z
+  /-- lower blocks are solved directly only by the non-Hermitian algorithm -/
+  Sy_lo : ∀ z : A, P lo (H0 * Sy z - Sy z * H0) = P lo z
   /-- on diagonal blocks the solution of an adjoint right-hand side is minus the adjoint -/
   Sy_ed_star : ∀ z : A, P ed (star (Sy z)) = - P ed (Sy (star z))
 
